@@ -33,6 +33,7 @@ Json Workload::ToJson() const {
     e.push(d.nc);
     e.push(d.mode);
     e.push(d.normalized);
+    if (d.vals) e.push(d.vals);
     a.push(e);
   }
   j["atts"] = a;
@@ -76,6 +77,7 @@ Workload Workload::FromJson(const Json &j) {
     d.nc = static_cast<int>(e.at(2).Int());
     d.mode = static_cast<int>(e.at(3).Int());
     d.normalized = static_cast<int>(e.at(4).Int());
+    d.vals = e.size() > 5 ? static_cast<int>(e.at(5).Int()) : 0;
     w.atts.push_back(d);
   }
   w.meta = static_cast<int>(j.get("meta").Int());
@@ -131,6 +133,7 @@ AttDesc MakeAtt(Rng *r, int type, bool mesh) {
         d.dt = kIntTypes[r->Below(6)];
       }
       d.nc = static_cast<int>(r->Range(1, 4));
+      if (r->Fork("vals").Chance(1, 6)) d.vals = 1;
       break;
   }
   if (mesh) {
@@ -168,6 +171,13 @@ Workload GenerateWorkload(Rng rng, int size_class, int force_kind) {
   if (w.kind == 1 && r.Chance(1, 4)) {
     // Integer positions (kd-tree handles them without quantization).
     pos.dt = kIntTypes[r.Below(6)];
+  }
+  if (w.kind == 0 && r.Fork("mesh-int-pos").Chance(1, 8)) {
+    // Meshes with integer positions: no quantization transform in the stream,
+    // the position descriptor is followed directly by prediction data.
+    static const DataType kPosInt[] = {draco::DT_INT16, draco::DT_INT32,
+                                       draco::DT_UINT16, draco::DT_UINT32};
+    pos.dt = kPosInt[r.Fork("mesh-int-pos-type").Below(4)];
   }
   w.atts.push_back(pos);
   if (w.kind == 0) {
@@ -477,6 +487,45 @@ void MakeValue(const AttDesc &d, uint64_t key, const float *pos, uint8_t *out) {
   }
   for (int c = 0; c < d.nc; ++c) {
     uint64_t v = splitmix64(&s);
+    if (d.vals == 2 && d.dt != draco::DT_FLOAT32 && d.dt != draco::DT_INT8 &&
+        d.dt != draco::DT_UINT8) {
+      // About 700 distinct values, small ones far more frequent: enough unique
+      // symbols for the widest entropy tables once there are a few thousand
+      // values.
+      const double u = (v >> 11) * (1.0 / 9007199254740992.0);
+      const uint32_t x32 = static_cast<uint32_t>(700.0 * u * u * u);
+      if (d.dt == draco::DT_INT16 || d.dt == draco::DT_UINT16) {
+        const uint16_t x = static_cast<uint16_t>(x32);
+        memcpy(out + 2 * c, &x, 2);
+      } else {
+        memcpy(out + 4 * c, &x32, 4);
+      }
+      continue;
+    }
+    if (d.vals == 1 && d.dt != draco::DT_FLOAT32) {
+      // Four levels spanning the type's (positive) range used here.
+      const uint64_t level = v & 3;
+      switch (d.dt) {
+        case draco::DT_INT8:
+        case draco::DT_UINT8: {
+          uint8_t x = static_cast<uint8_t>(level * 42);
+          memcpy(out + c, &x, 1);
+          break;
+        }
+        case draco::DT_INT16:
+        case draco::DT_UINT16: {
+          uint16_t x = static_cast<uint16_t>(level * 1365);
+          memcpy(out + 2 * c, &x, 2);
+          break;
+        }
+        default: {
+          uint32_t x = static_cast<uint32_t>(level * 349525);
+          memcpy(out + 4 * c, &x, 4);
+          break;
+        }
+      }
+      continue;
+    }
     switch (d.dt) {
       case draco::DT_INT8: {
         int8_t x = static_cast<int8_t>(v % 29) - 14;
